@@ -459,6 +459,10 @@ def r19_6(prog, chk):
                                 conj.append(cnd)
                         if any(cnd["k"] == "DeclRefExpr" and cnd.get("d") in retvars for cnd in conj):
                             return True
+                        # ... or the guarded block itself ends with a failure return
+                        if any(y["k"] == "Return" and y.get("c") and y["c"][0] is not None and y["c"][0]["k"] == "Int" and y["c"][0]["v"] != 0
+                               for y in walk(a["c"][1])):
+                            return True
                     child = a
                 return False
             dels = [c for c in dels if not rollback(c)]
@@ -523,6 +527,92 @@ def r19_6(prog, chk):
                            "%s is %s" % (k, v) for k, v in sorted(res[1].items())) if res else None,
                        key="R19.6|%s|%s" % (f.name, name), path=None if ok else g.describe(res[0]))
     chk.floor("R19.6", n, 2)
+
+
+R199_UNITS = ["src/Core/krige.cpp", "src/Core/simtub.cpp", "src/Core/spill.cpp", "src/Core/seismic.cpp", "src/Db/DbHelper.cpp", "src/Db/DbGrid.cpp",
+              "src/Simulation/SimuSpectral.cpp", "src/Simulation/SimuBoolean.cpp", "src/Simulation/CalcSimuRefine.cpp", "src/Variogram/Vario.cpp",
+              "src/Basic/Limits.cpp", "src/Anamorphosis/CalcAnamTransform.cpp"]
+
+
+# R19.9: diagnosed failures that could not be produced through the API (one named function each, with the reason)
+R199_ACCEPTED = {
+    ("krigsum", "iptr_est"): "`The sum of scaling terms is zero` is a numerical condition on the Lagrange parameters of the universal kriging systems, "
+                             "not a test of the arguments; no input producing it was found (with a model without drift the call succeeds)",
+}
+
+
+def r19_9(prog, chk):
+    """R19.9 - entry points that are not calculators (old-style functions returning an error code): a column the function has
+    created is deleted on every path to a failure return that the function itself diagnoses from its arguments (error message, then
+    `return 1`), so that a refused call leaves the data base as it found it.  Not judged: failures propagated from a callee (they may
+    be infeasible), and the return taken because the creation of a further column itself failed."""
+    n = 0
+    for f in sorted(prog.funcs, key=lambda x: (x.file, x.line)):
+        if f.cfg is None or not f.ret.startswith("int") or not f.d.get("main"):
+            continue
+        creates = {}
+        for x in f.walk():
+            tgt = rhs = None
+            if x["k"] == "VarDecl" and x.get("c"):
+                tgt, rhs = (x["d"], x["n"]), x["c"][0]
+            elif x["k"] == "Assign" and x.get("op") == "=" and x["c"][0] is not None and x["c"][0]["k"] == "DeclRefExpr" and x["c"][0].get("dk") == "var":
+                tgt, rhs = (x["c"][0]["d"], x["c"][0]["n"]), x["c"][1]
+            if rhs is not None and rhs["k"] == "MCall" and (rhs.get("callee") or "").split("::")[-1] in CREATE_COLS and (rhs.get("cls") or "").startswith("Db"):
+                creates.setdefault(tgt, []).append(x)
+        if not creates:
+            continue
+        g = CFG(f)
+        created_ids = {d for (d, _) in creates}
+        for (d, name), sites in sorted(creates.items(), key=lambda kv: kv[0][1]):
+            dels = [c for c in f.calls() if (c.get("callee") or "").split("::")[-1] in DELETE_COLS and
+                    any(a is not None and any(y["k"] == "DeclRefExpr" and y.get("d") == d for y in walk(a)) for a in call_args(c))]
+            isdel = lambda x: any(x["i"] == c["i"] for c in dels)
+
+            def fail(r):
+                v = (r.get("c") or [None])[0]
+                if v is None or not (v["k"] == "Int" and v["v"] != 0):
+                    return False
+                # only failures the function itself diagnoses from its arguments (an error message right before the return) are
+                # judged: they are reachable from the API by construction; a failure propagated from a callee may be infeasible
+                blk_ = f.parent(r)
+                if blk_ is None or blk_["k"] != "Block" or not any(
+                        sib is not None and sib["k"] == "Call" and (sib.get("callee") or "") in ("messerr", "messageAbort") for sib in blk_["c"]):
+                    return False
+                # return taken because another creation failed: `if (id < 0) return 1;`
+                par = f.parent(r)
+                if par is not None and par["k"] == "Block":
+                    par = f.parent(par)
+                if par is not None and par["k"] == "If":
+                    c = par["c"][0]
+                    while c is not None and c["k"] == "Cast":
+                        c = c["c"][0]
+                    if c is not None and c["k"] == "BinOp" and c.get("op") in ("<", "<=") and c["c"][0] is not None and c["c"][0].get("d") in created_ids:
+                        return False
+                return True
+
+            def edge_ok(blk, k, s_, d=d):
+                c = g.cond(blk["b"])
+                if c is None or len(blk["s"]) != 2:
+                    return True
+                core, pol = peel_cond(c)
+                if core is not None and core["k"] == "BinOp" and core.get("op") in (">", ">=", "<") and core["c"][0] is not None and \
+                        core["c"][0].get("d") == d and core["c"][1] is not None and core["c"][1]["k"] == "Int" and core["c"][1]["v"] == 0:
+                    valid = core["op"] in (">", ">=")
+                    return ((k == 0) == pol) == valid
+                return True
+            for site in sites:
+                if g.pos_of(site) is None:
+                    continue
+                n += 1
+                chk.analysed(f)
+                w = g.search(g.after(site), is_target=lambda x: x["k"] == "Return" and fail(x), is_barrier=isdel, edge_ok=edge_ok)
+                why = R199_ACCEPTED.get((f.name, name))
+                ok = w is None or bool(why)
+                chk.ob("R19.9", "%s: the column `%s` it creates is deleted on every failure return" % (f.name, name) + (" (accepted: %s)" % why if why and w is not None else ""), f.loc(site), ok,
+                       detail=None if ok else "the function returns an error (line %s) after it has created the column and without deleting it: a failed call leaves "
+                       "an additional variable in the data base" % (w["hit"]["l"] if w.get("hit") else "?"),
+                       key="R19.9|%s|%s" % (f.name, name), path=None if ok else g.describe(w))
+    chk.floor("R19.9", n, 15)
 
 
 def _field_of_this(n):
@@ -702,7 +792,7 @@ def main(tier):
                 "restored on success are restored on failure, failing branches of stage functions report failure. Necessary "
                 "conditions of 'fails and leaves the data bases untouched'; does NOT decide that pre-existing values are "
                 "unchanged nor the old-style (non-calculator) functions.")
-    units = [os.path.join(REPO, u) for u in UNITS + R196_UNITS]
+    units = [os.path.join(REPO, u) for u in UNITS + R196_UNITS + [u for u in R199_UNITS if u not in UNITS + R196_UNITS]]
     if tier == "thorough":
         units = facts.all_units()
     d = extract(units, "C19-" + tier)
@@ -722,4 +812,5 @@ def main(tier):
     r19_6(prog, chk)
     r19_7(prog, chk)
     r19_8(prog, chk, set(classes))
+    r19_9(prog, chk)
     return chk.finish()
